@@ -156,6 +156,8 @@ def impl(c, ctx):
         return dict(err="other", detail="operand no longer builds: %r" % (e,))
     try:
         r = a ** t["n"] if t["k"] == "^" else apply_op(t["k"], a, b)
+    except OverflowError:
+        return dict(overflow=True)  # float range exceeded inside the operation (ratio ** exp, value * factor)
     except Exception as e:
         return dict(err=err_kind(e))
     try:
@@ -179,6 +181,13 @@ def agree(c, io, mo, ctx):
 def _agree(c, io, mo, ctx):
     if "nonfinite" in io:
         return None  # float overflow: outside the exact model (never generated on purpose)
+    if "overflow" in io:
+        # OverflowError raised by float arithmetic: legitimate only when the exact magnitudes leave the float range
+        if "err" in mo:
+            return "impl raised OverflowError, the model rejects the operation: %s" % (mo,)
+        big = qparse(mo["M"])
+        return None if big >= 10 ** 250 else \
+            "impl raised OverflowError although every exact magnitude stays below 1e250 (M=%.3g)" % float(big)
     if "err" in io or "err" in mo:
         if ("err" in io) != ("err" in mo):
             return "one side fails: impl=%s model=%s" % (io, mo)
@@ -335,7 +344,7 @@ def run_group(ta, tb, mult, kind, fam, dts=("float64", "float64")):
                 objs["r%d" % j] = res
                 snap["r%d" % j] = out  # results: as they were right after the step
             except Exception as e:
-                steps.append(dict(err=err_kind(e)))
+                steps.append(dict(overflow=True) if isinstance(e, OverflowError) else dict(err=err_kind(e)))
     return dict(snap=snap, steps=steps)
 
 
@@ -380,6 +389,8 @@ def impl_array(c, ctx):
     res = g["steps"][ar["step"]]
     if res is None:
         return dict(err="other", detail="step skipped")
+    if "overflow" in res:
+        return dict(overflow=True)
     if "err" in res:
         return dict(err=res["err"])
     v = res["vals"][ar["i"]]
